@@ -26,19 +26,21 @@ import (
 
 type advSim struct {
 	*Sim
-	r        *hx.Rng
-	f        *Forge
-	byz      map[spectypes.OperatorID]bool
-	pending  map[spectypes.OperatorID][]int // wire indices not yet offered
-	done     map[spectypes.OperatorID][]int
-	seenWire int
-	reported map[spectypes.OperatorID][]byte // first decision reported by ProcessMsg
-	decVal   map[spectypes.OperatorID][]byte // DecidedValue when the instance first became decided
-	viols    []violation
-	tags     []string
-	compact  bool
-	values   [][]byte
-	direct   [][]byte // everything the adversary crafted (material for later crafting)
+	r         *hx.Rng
+	f         *Forge
+	byz       map[spectypes.OperatorID]bool
+	pending   map[spectypes.OperatorID][]int // wire indices not yet offered
+	done      map[spectypes.OperatorID][]int
+	seenWire  int
+	reported  map[spectypes.OperatorID][]byte // first decision reported by ProcessMsg
+	decVal    map[spectypes.OperatorID][]byte // DecidedValue when the instance first became decided
+	viols     []violation
+	tags      []string
+	compact   bool
+	values    [][]byte
+	direct    [][]byte // everything the adversary crafted (material for later crafting)
+	alt       *altRole // the correct operators' controllers for a second duty role (other identifier), see crossrole.go
+	altValues [][]byte
 }
 
 func newAdvSim(env *Env, r *hx.Rng, h specqbft.Height, nByz int, compact bool) *advSim {
@@ -58,7 +60,8 @@ func newAdvSim(env *Env, r *hx.Rng, h specqbft.Height, nByz int, compact bool) *
 // in every node's case of this schedule (a multi-node replay file stays consistent across its `reset` blocks)
 func (a *advSim) addNodes(env *Env, h specqbft.Height, compact bool) {
 	shared := NewIntern(env.identifier)
-	shared.Val(badValue) // the rejected value gets the same id everywhere
+	shared.Val(badValue)                        // the rejected value gets the same id everywhere
+	shared.Ident(getEnvRole2(env.n).identifier) // the second duty role is identifier 2 everywhere
 	for i := 1; i <= env.n; i++ {
 		id := spectypes.OperatorID(i)
 		nd := &SimNode{id: id, byz: a.byz[id], compact: compact}
@@ -452,11 +455,20 @@ func (a *advSim) schedStep() {
 		d := a.done[nd.id]
 		a.tags = append(a.tags, "net/duplicate")
 		a.deliverTo(nd, a.wire[d[r.Intn(len(d))]].Enc)
-	case x < 85: // timeout
+	case x < 85: // timeout (the timers of both duty roles fire together most of the time)
 		a.tags = append(a.tags, "net/timeout")
 		a.timeoutOn(nd)
+		if a.alt != nil && r.Chance(70) {
+			a.altTimeout(nd.id)
+		}
+	case x < 88:
+		a.altStep()
 	case x < 95:
-		a.byzAct()
+		if a.alt != nil && r.Chance(35) {
+			a.byzCrossRole()
+		} else {
+			a.byzAct()
+		}
 	default: // burst: deliver everything pending to one node
 		for len(a.pending[nd.id]) > 0 {
 			idx := a.pending[nd.id][0]
@@ -722,7 +734,7 @@ func (a *advSim) outs(extra []string) []caseOut {
 		}
 		outs = append(outs, o)
 	}
-	return outs
+	return append(outs, a.altOuts(nil)...)
 }
 
 // runSim: one adversarial schedule (mode sim)
@@ -745,6 +757,13 @@ func runSim(r *hx.Rng, withContinuation bool) []caseOut {
 		}
 	}
 	a.startAll(vals)
+	if r.Chance(60) { // the correct operators also run a second duty role at this height
+		a.altValues = make([][]byte, env.n)
+		for i := range a.altValues {
+			a.altValues[i] = valueBytes(120 + base%7 + i%2)
+		}
+		a.altInit(a.altValues)
+	}
 	steps := 30 + r.Intn(170)
 	if withContinuation {
 		steps = r.Intn(140)
@@ -752,7 +771,7 @@ func runSim(r *hx.Rng, withContinuation bool) []caseOut {
 	for k := 0; k < steps; k++ {
 		a.schedStep()
 	}
-	tags := []string{"case/sim", fmt.Sprintf("n/%d", env.n), fmt.Sprintf("byz/%d", nByz), fmt.Sprintf("compaction/%v", compact)}
+	tags := []string{"case/sim", fmt.Sprintf("n/%d", env.n), fmt.Sprintf("byz/%d", nByz), fmt.Sprintf("compaction/%v", compact), fmt.Sprintf("second-role/%v", a.alt != nil)}
 	if withContinuation {
 		used, why := a.continuation()
 		if used < 0 {
